@@ -1,6 +1,7 @@
 package sign
 
 import (
+	"errors"
 	"fmt"
 
 	"github.com/taurusgroup/multi-party-sig/internal/round"
@@ -19,6 +20,18 @@ const (
 
 func StartSignCommon(taproot bool, result *keygen.Config, signers []party.ID, messageHash []byte) protocol.StartFunc {
 	return func(sessionID []byte) (round.Session, error) {
+		if result == nil || result.PrivateShare == nil || result.PublicKey == nil || result.VerificationShares == nil {
+			return nil, errors.New("sign.StartSign: config is nil or incomplete")
+		}
+		if len(messageHash) == 0 {
+			return nil, errors.New("sign.StartSign: message is empty")
+		}
+		// every signer must be a shareholder of this key
+		for _, id := range signers {
+			if result.VerificationShares.Points[id] == nil {
+				return nil, fmt.Errorf("sign.StartSign: signer %s holds no share of this key", id)
+			}
+		}
 		info := round.Info{
 			FinalRoundNumber: protocolRounds,
 			SelfID:           result.ID,
